@@ -73,6 +73,15 @@ class DisplayOracle:
                       "frame_taller_than_screen": 0, "frame_exact_screen_height": 0, "frame_shrunk": 0,
                       "frame_grew": 0, "frame_empty": 0, "relaxed_runs": 0, "writes": 0}
         self._ellipsis = None
+        # blank-sensitive view of the printed region: raw rows (blank ones included) of every print
+        # consumed so far.  While nothing has been frozen/erased/restarted the printed region is
+        # exactly rows [0, n) of the screen, so a lost or extra *empty* line is visible here
+        # although the main comparison ignores blank rows.
+        self.full_committed = []
+        self.full_ok = True
+        self.hook_depth = 0
+        self.pushed_by = set()  # threads that pushed / popped the hook during their current op
+        self.popped_by = set()
         self.sig_hint = None  # set by a client around an operation whose failure has its own signature
         self.tracker = None  # SpanTracker, when the run may meet the overlapping-spans finding
         self._cur_write = None
@@ -85,12 +94,16 @@ class DisplayOracle:
 
         def push_(hook):
             r = push(hook)
-            oracle.hooked = True
+            oracle.hook_depth += 1
+            oracle.hooked = oracle.hook_depth > 0
+            oracle.pushed_by.add(oracle._tid())
             return r
 
         def pop_():
             r = pop()
-            oracle.hooked = False
+            oracle.hook_depth -= 1
+            oracle.hooked = oracle.hook_depth > 0
+            oracle.popped_by.add(oracle._tid())
             return r
 
         console.push_render_hook = push_
@@ -225,6 +238,8 @@ class DisplayOracle:
         tid = self._tid()
         self._begin_seq[tid] = self.sim.seq
         self._hooked_at_begin[tid] = self.hooked
+        self.pushed_by.discard(tid)
+        self.popped_by.discard(tid)
 
     def span_begin(self):
         """Sequence number at which the operation (or, for a helper thread, the refresh cycle)
@@ -255,6 +270,7 @@ class DisplayOracle:
                     self.op, _show(self.expected(c, f)), _show(self.actual(len(c), True))))
             else:
                 self._adopt(hit[0], hit[1], "end")
+                self.full_ok = False  # stages completed without a matching write: row bookkeeping is off
         self.stages = []
         self.op = None
 
@@ -361,7 +377,20 @@ class DisplayOracle:
         c, f, note, adv = matched
         self._adopt(c, f, note)
         if adv:
+            for st in self.stages[:adv]:
+                if st[0] == "print":
+                    self.full_committed.extend(st[1])
+                elif st[0] in ("freeze", "erase", "final"):
+                    self.full_ok = False
             del self.stages[:adv]
+        if self.full_ok and self.full_committed and not self.relaxed:
+            n = len(self.full_committed)
+            got = [scr.cells(r) if r < len(scr.rows) else [] for r in range(n)]
+            if got != self.full_committed:
+                i = next(i for i in range(n) if got[i] != self.full_committed[i])
+                self.violate("screen", "printed-rows-mismatch", "row %d of the printed region is %r, expected %r (empty lines count): printed region %s, expected %s" % (
+                    i, "".join(ch for ch, _ in got[i]), "".join(ch for ch, _ in self.full_committed[i]),
+                    _show([r or [("", None)] for r in got[max(0, i - 2):i + 3]]), _show([r or [("", None)] for r in self.full_committed[max(0, i - 2):i + 3]])))
         if self.relaxed:
             return
         if scr.clamps != clamps_before:
@@ -495,9 +524,8 @@ class SpanTracker:
         """Is the write (seq, tid) explained by overlapping critical spans?  Call before write_done."""
         if not self.installed:
             return False
-        s = self.open.get(tid)
-        if s is None:
-            s = self.entry.get(tid)
+        cands = [x for x in (self.open.get(tid), self.entry.get(tid)) if x is not None]
+        s = min(cands) if cands else None
         if s is not None:
             for eseq, etid, kind in self.events:
                 if etid != tid and s < eseq < seq:
